@@ -166,6 +166,7 @@ type StructInfo struct {
 
 type World struct {
 	prog        *ssa.Program
+	logSigs     map[string]*types.Signature // call-log name -> signature (lazily built)
 	pkgs        map[string]*PkgInfo
 	structs     map[string]*StructInfo
 	structByT   map[string]*StructInfo // by type string
